@@ -6,12 +6,21 @@
 
 static Sha256* sha = 0;
 
-static void begin(long, vh::Tok&) { delete sha; sha = new Sha256; }
+// The object lives in zeroed storage so that the never-written part of the block buffer is
+// deterministic (the constructor only calls reset(); the model starts from a zero buffer).
+static void begin(long, vh::Tok&)
+{
+  if(sha) { sha->~Sha256(); free(sha); }
+  void* mem = calloc(1, sizeof(Sha256));
+  sha = new (mem) Sha256;
+}
 
 static void state_out()
 {
   printf(" | %llu ", (unsigned long long)sha->count);
   for(int i = 0; i < 8; ++i) printf(i ? ",%08x" : "%08x", sha->state[i]);
+  printf(" | ");
+  vh::puthex(sha->buffer, sizeof(sha->buffer)); // L-int: the 64-byte block buffer, stale bytes included
   printf("\n");
 }
 
